@@ -305,17 +305,15 @@ static void cc_pqueue_heapify(CC_PQueue *pq, size_t index)
     size_t R   = CC_RIGHT(index);
     size_t tmp = index;
 
-    void *left     = pq->buffer[L];
-    void *right    = pq->buffer[R];
     void *indexPtr = pq->buffer[index];
 
-    if (L < pq->size && pq->cmp(indexPtr, left) < 0) {
-        indexPtr = left;
+    if (L < pq->size && pq->cmp(indexPtr, pq->buffer[L]) < 0) {
+        indexPtr = pq->buffer[L];
         index = L;
     }
 
-    if (R < pq->size && pq->cmp(indexPtr, right) < 0) {
-        indexPtr = right;
+    if (R < pq->size && pq->cmp(indexPtr, pq->buffer[R]) < 0) {
+        indexPtr = pq->buffer[R];
         index = R;
     }
 
